@@ -370,6 +370,9 @@ func histCases(prop, tier string, seed int64) []core.Case {
 			cases = append(cases, core.Case{ID: fmt.Sprintf("malformed-write/dotu=%v", dotu), Run: func(ctx *core.Ctx) core.Result {
 				return runMalformedWrites(dotu)
 			}})
+			cases = append(cases, core.Case{ID: fmt.Sprintf("named-users/dotu=%v", dotu), Run: func(ctx *core.Ctx) core.Result {
+				return runNamedUsers(dotu)
+			}})
 		}
 	}
 	return cases
@@ -543,5 +546,29 @@ func runMalformedWrites(dotu bool) core.Result {
 		h.Fatal = true // the connection may be gone: skip the destroy accounting that needs replies
 		h.Finish()
 	}
+	return res
+}
+
+// runNamedUsers: the user the implementation sees is the one the client named — by number in 9P2000.u, by name in
+// plain 9P2000 (the other histories attach as uid 0 in the plain dialect, where go9p resolves every attach to uid 0).
+func runNamedUsers(dotu bool) core.Result {
+	var res core.Result
+	for _, auth := range []bool{false, true} {
+		for _, uid := range []int{0, 1001, 1002} {
+			h := NewHist(Config{Dotu: dotu, Msize: 8192, Auth: auth}, 1, &res, "C05")
+			if !h.Negotiate(8192) {
+				return res
+			}
+			if auth {
+				h.Do(authStep(1, uid, nil))
+			}
+			h.Do(attachStep(0, wire.NOFID, dotu, uid, nil))
+			h.Do(&Step{Msg: &wire.Msg{Type: wire.Tstat, Fid: 0}})
+			res.Evals++
+			res.Sig(fmt.Sprintf("named-user|%v|%v|%d", dotu, auth, uid))
+			h.Finish()
+		}
+	}
+	res.Sample(map[string]interface{}{"scenario": "attach as root / alice / bob by name and number", "dotu": dotu})
 	return res
 }
